@@ -119,3 +119,10 @@ pub open spec fn fc_wf(f: FunctionCall) -> bool { f.mods@.len() == f.args@.len()
 // R-collect / vec! (trusted): `iter.into_iter().collect()` of a Vec is that Vec; `vec![d; n]` has n elements
 #[verifier::external_body]
 fn vvec_default_mods(n: usize) -> (r: Vec<FuncArgMod>) ensures r@.len() == n { unimplemented!() }
+
+// R-collect (trusted): `v.into_iter().map(|v| Into::<Value>::into(v).into()).collect()` of values is the list of their
+// SimpleExpr::Value wrappers, in order
+#[verifier::external_body]
+fn vvalues_to_exprs(v: Vec<Value>) -> (r: Vec<SimpleExpr>)
+    ensures r@.len() == v@.len(), forall|i: int| 0 <= i < v@.len() ==> #[trigger] r@[i] == SimpleExpr::Value(v@[i])
+{ unimplemented!() }
